@@ -58,7 +58,8 @@ zreadtriple(int *m, int *n, int_t *nonz,
     asub = *rowind;
     xa   = *colptr;
 
-    val = (doublecomplex *) SUPERLU_MALLOC(*nonz * sizeof(doublecomplex));
+    if ( !(val = (doublecomplex *) SUPERLU_MALLOC(*nonz * sizeof(doublecomplex))) )
+        ABORT("Malloc fails for val[]");
     row = int32Malloc(*nonz);
     col = int32Malloc(*nonz);
 
